@@ -3,10 +3,13 @@ import Driver.HCM
 import Driver.FkmNonlinear
 import Driver.Woehler
 import Driver.Collective
+import Driver.Equistress
+import Driver.Miner
+import Driver.MaterialLaws
 open PylifeVerif.Driver
 
 /-- All handlers; the first that recognises the op answers. -/
-def handlers : List (List String → Option String) := [handleRainflow, handleHCM, handleFkmNonlinear, handleWoehler, handleCollective]
+def handlers : List (List String → Option String) := [handleRainflow, handleHCM, handleFkmNonlinear, handleWoehler, handleCollective, handleEquistress, handleMiner, handleMaterialLaws]
 
 def answer (line : String) : String :=
   let toks := (line.splitOn " ").filter (· ≠ "")
